@@ -173,12 +173,9 @@ impl AmbiguityResolver {
         let line = context.line_content.as_ref()?;
         let match_pos = context.match_position?;
 
-        // Extract preceding context
-        let preceding = if match_pos > 0 {
-            &line[..match_pos]
-        } else {
-            ""
-        };
+        // Extract preceding context. The line is a lossy decoding: when it contains invalid UTF-8
+        // the byte column of the match need not be a character boundary of it (or even inside it)
+        let preceding = line.get(..match_pos).unwrap_or("");
 
         if let Some(style) =
             LanguageHeuristics::suggest_style(file_path, preceding, possible_styles)
@@ -238,12 +235,8 @@ impl AmbiguityResolver {
 
         let extension = file_path.extension()?.to_str()?;
 
-        // Extract preceding word
-        let preceding = if match_pos > 0 {
-            &line[..match_pos]
-        } else {
-            ""
-        };
+        // Extract preceding word (see try_language_heuristics for why this is a checked slice)
+        let preceding = line.get(..match_pos).unwrap_or("");
 
         // Find the last word before the match
         let preceding_word = preceding.split_whitespace().last().unwrap_or("");
